@@ -77,6 +77,13 @@ structure VecInv (h : Hist) (s : VState) (nBrAt : Nat → Nat) : Prop where
   mono : ∀ a, a < h.length → nBrAt a ≤ s.nBr
   base : ∀ a, a < h.length → s.nVals ≤ nBrAt a
 
+/-- I2′ (used by C05 only): a row is zero beyond the branches that existed when its event was
+    indexed, and every event in the ancestry of `a` lies on a branch that existed then.
+    (Separate from `VecInv` so that adding it does not disturb the C06 proofs.) -/
+structure VecInv2 (h : Hist) (s : VState) (nBrAt : Nat → Nat) : Prop where
+  beyond : ∀ a b, a < h.length → nBrAt a ≤ b → (s.hb.get a).get b = BSeq.zero
+  seen_lt : ∀ a i, a < h.length → Anc h a i → s.branchOf i < nBrAt a
+
 /-- I3: LowestAfter invariant: `LA(b)[br]` is the least seq of an event of branch `br` that has `b`
     as an ancestor-or-self, among the events indexed so far (0 if there is none) -/
 structure LowInv (h : Hist) (s : VState) : Prop where
